@@ -135,18 +135,18 @@ Proof. destruct c as [p i nx r]; simpl. intros -> H. right. exact H. Qed.
 (* node_by_id                                                                                       *)
 Fixpoint desc_node (n : node) : list node :=
   n :: match n with
-       | NGroup (G _ _ _ _ kids) =>
+       | NGroup (G _ _ _ _ _ kids) =>
            (fix go (l : list node) : list node := match l with [] => [] | k :: r => desc_node k ++ go r end) kids
        | _ => []
        end.
 Definition desc_group (g : group) : list node := flat_map desc_node (g_kids g).
 
-Lemma desc_node_group i c m fs ks :
-  desc_node (NGroup (G i c m fs ks)) = NGroup (G i c m fs ks) :: flat_map desc_node ks.
+Lemma desc_node_group i sy c m fs ks :
+  desc_node (NGroup (G i sy c m fs ks)) = NGroup (G i sy c m fs ks) :: flat_map desc_node ks.
 Proof. reflexivity. Qed.
 
-Lemma node_by_id_eq i c m fs ks x :
-  node_by_id (G i c m fs ks) x =
+Lemma node_by_id_eq i sy c m fs ks x :
+  node_by_id (G i sy c m fs ks) x =
   (fix go (l : list node) : option node :=
      match l with
      | [] => None
@@ -172,15 +172,15 @@ Lemma node_by_id_spec_all :
   (forall f : filterdef, True) /\ (forall p : prim, True) /\ (forall p : paint, True).
 Proof.
   apply tree_mutind; auto.
-  intros i c m fs ks _ _ _ Hks x. rewrite node_by_id_eq. unfold desc_group. simpl g_kids.
+  intros i sy c m fs ks _ _ _ Hks x. rewrite node_by_id_eq. unfold desc_group. simpl g_kids.
   induction Hks as [|k r Hk Hr IH]; simpl.
   - intros n [].
   - destruct (node_id k =? x) eqn:E.
-    + apply N.eqb_eq in E. split; auto. apply in_or_app. left. destruct k as [[? ? ? ? ?]| | |]; simpl; auto.
+    + apply N.eqb_eq in E. split; auto. apply in_or_app. left. destruct k as [[? ? ? ? ? ?]| | |]; simpl; auto.
     + apply N.eqb_neq in E.
       destruct k as [g| | |].
-      * specialize (Hk x). destruct g as [gi gc gm gf gk].
-        destruct (node_by_id (G gi gc gm gf gk) x) as [n|] eqn:En.
+      * specialize (Hk x). destruct g as [gi gsy gc gm gf gk].
+        destruct (node_by_id (G gi gsy gc gm gf gk) x) as [n|] eqn:En.
         -- destruct Hk as [H1 H2]. split; auto. apply in_or_app. left. rewrite desc_node_group. right. exact H2.
         -- match goal with |- match ?e with _ => _ end => destruct e as [n|] eqn:Er end.
            ++ destruct IH as [H1 H2]. split; auto. apply in_or_app. right. exact H2.
